@@ -375,14 +375,14 @@ theorem cmpInt_eq (a b : Int) : (cmpInt a b == 0) = decide (a = b) := by
     · have : ¬ a = b := by omega
       simp [h, h2, this]
     · have : a = b := by omega
-      simp [h, h2, this]
+      simp [this]
 
 theorem cmpResult_eq (op : Op) (a b : Int) :
     cmpResult op (cmpInt a b) =
       match op with
       | .eq => decide (a = b) | .ne => !decide (a = b) | .lt => decide (a < b) | .le => !decide (b < a)
       | .gt => decide (b < a) | .ge => !decide (a < b) | _ => false := by
-  cases op <;> simp only [cmpResult, cmpInt_lt, cmpInt_gt, cmpInt_eq, bne, Bool.not_eq_eq_eq_not]
+  cases op <;> simp only [cmpResult, cmpInt_lt, cmpInt_gt, cmpInt_eq, bne]
 
 theorem cmpResult_signed {n : Nat} (op : Op) (hop : op.isCmp = true) (a b : BitVec n) :
     cmpResult op (cmpInt a.toInt b.toInt) = circuitCmp op true a b := by
